@@ -72,7 +72,7 @@ def specP : P String := do
   | "iterdue" => do
       -- after n executions a (non-skipping) batched job is due at the (n+1)-th occurrence of the union after its start
       let tms ← listOf timingP; let start ← int; let n ← nat; let due ← int
-      pure (okB ((Nat.repeat (fun r => unionNext tms r) (n + 1) start) == due))
+      pure (okB (iterNext tms (n + 1) start == due))
   | "nextpast" => do
       -- the earliest occurrence of any of the listed times strictly after `last` lies past `stop`
       -- (the only situation in which the stop may retire the job after the run that consumed `last`)
